@@ -57,7 +57,18 @@ func checkC13(c *Check) {
 						if l.Kind == "call" && l.T != nil && l.T.Name == "delete" && l.T.Args[0].Key() == EA {
 							k := l.T.Args[1]
 							if !k.isConst() {
-								badDel = append(badDel, c.P.pos(l.Node.Pos)+": non-constant key "+k.Key())
+								// a key known equal to a constant on this path (deleted under key == name)
+								known := ""
+								for f := range s.Facts {
+									if strings.HasPrefix(f, "EQ:"+k.Key()+"=") {
+										known = strings.TrimPrefix(f, "EQ:"+k.Key()+"=")
+									}
+								}
+								if known == "" {
+									badDel = append(badDel, c.P.pos(l.Node.Pos)+": non-constant key "+k.Key())
+									continue
+								}
+								deleted[strings.Trim(known, `"`)] = true
 								continue
 							}
 							deleted[strings.Trim(k.Name, `"`)] = true
@@ -74,7 +85,14 @@ func checkC13(c *Check) {
 			c.Tables["jws_system_keys_removed"] = dels
 			c.add("O-C13.1", "JWS system key table equals the header struct", "the keys removed from the extended-attribute map are exactly the JSON member names of the protected-header struct (7 = 7)", sameSet(structNames, dels) && len(dels) >= 7 && len(badDel) == 0, "", append([]string{"struct members: " + strings.Join(structNames, ","), "removed keys: " + strings.Join(dels, ",")}, badDel...)...)
 			for _, k := range structNames {
-				c.mustPass(pg, "O-C13.1", "JWS: specification header "+k+" never surfaces as an attribute", "returning content", ok, CallKey("delete("+EA+", \""+k+"\")"))
+				del := CallKey("delete(" + EA + ", \"" + k + "\")")
+				if always, _ := c.cut(pg, ok, del); always || len(edgeTargets(pg, RangeNext(EA))) == 0 {
+					c.mustPass(pg, "O-C13.1", "JWS: specification header "+k+" never surfaces as an attribute", "returning content", ok, del)
+				} else {
+					// deleted while the raw names are scanned: every name equal to it is removed in its iteration
+					c.perIteration(pg, "O-C13.1", "JWS: specification header "+k+" never surfaces as an attribute", "each raw member name equal to "+k+" is deleted from the attribute map", EA, AnyOf(A("-Eq(\""+k+"\", rk("+EA+"))"), CallKey("delete("+EA+", rk("+EA+"))")))
+					c.onlyAfterExhaustion(pg, "O-C13.1", "JWS: all raw member names scanned before content is returned ("+k+")", "returning content", EA, ok)
+				}
 			}
 			c.mustPass(pg, "O-C13.1", "JWS: attribute map decoded from the same bytes as the header struct", "returning content", ok, CallKey(t.decX))
 			// (4) phantom critical labels
@@ -220,7 +238,15 @@ func checkC13(c *Check) {
 				for _, l := range e.Labels {
 					if l.Kind == "assign" && l.T2 != nil && l.T2.Op == "call" && l.T2.Name == "append" && len(l.T2.Args) == 2 && !isKeyAppend.F(l) {
 						k := l.T2.Args[1]
-						if !k.isConst() && strings.Contains(k.Key(), req+".") {
+						ks := strings.ReplaceAll(k.Key(), "old("+el+")", el)
+						if ks == el+".Key" || ks == el+".Key.(string)" {
+							continue // the key of an earlier iteration carried along with the list
+						}
+						if k.Op == "spread" {
+							// a list spliced in: fine if everything it holds of the request are attribute keys
+							ks = strings.ReplaceAll(ks, el+".Key", "")
+						}
+						if !k.isConst() && strings.Contains(ks, req+".") {
 							bad = append(bad, c.P.pos(l.Node.Pos)+": appends "+k.Key())
 						}
 					}
